@@ -74,6 +74,7 @@ THEOREMS = ["HgVerif.Tie.tie_rankLarge", "HgVerif.Tie.tie_rankScalarVar", "HgVer
     "HgVerif.Dispatch.fixed_arity_beats_variadic_at_equal_specificity",
     "HgVerif.Dispatch.variadic_never_beats_its_fixed_expansion",
     "HgVerif.Dispatch.tsPatternRank_tail_prefers_less_specific",
+    "HgVerif.Dispatch.variadic_shared_variable_charged_per_tail_argument",
 ]
 CXX_TARGETS = ["hgv_dispatch"]
 RULE = ("synthetic overload families (1-6 overloads, arity 1-3) obtained by generalising a concrete argument tuple "
@@ -104,8 +105,30 @@ RULE = ("synthetic overload families (1-6 overloads, arity 1-3) obtained by gene
         "difference one level down inside an un-named outer bundle, REF-wrapped at random, under ALL registration orders; "
         "<= 5 argument tuples per family elsewhere (the seed tuple and REF-wrapped / mutated "
         "variants); each family registered under 3-6 registration orders. A case is non-trivial when some call has "
-        ">= 2 matching candidates (a critical pair: the rank decides) ; distinct by sha1 of the case text")
+        ">= 2 matching candidates (a critical pair: the rank decides) ; distinct by sha1 of the case text. "
+        "Stream 'variadic' (model + monitor): 300 (thorough: 6000 + 600 under ALL registration orders) families that mix "
+        "fixed-arity and VARIADIC candidates - V = f(fixed.., *tail) with 0-2 fixed parameters (22% sharing a variable with "
+        "the tail) and a tail drawn 68% from 24 NESTED generic patterns (*TSL[~E,~N], *TSL[~E,2|0], *TSD[~K,~V], "
+        "*TSD[~K,TS[~K]], *TSB[a:~U,b:~W], *TSB[a:~U,b:~U], *TSB[~R], two levels, REF, constrained variables, TSW any-window) "
+        "and 32% from flat ones (*~S, *TS[~T], *TS[int], *=TS[int], *REF[~S], *TSS[~T], *SIGNAL), against 2-5 competitors "
+        "whose rank lies close: a bare variable per position, V's fixed part + a bare variable per tail position, the exact "
+        "fixed-arity expansion of V for one of the called tail lengths (shared / renamed-apart variables), per-position "
+        "generalisations and concrete leaves of the seed arguments, and other variadic candidates (more generic tail *~Z, "
+        "concrete tail, a generalisation, the SAME tail = a tie, bare fixed part, one more fixed parameter); 3-5 calls with "
+        "0..4 tail arguments (homogeneous, heterogeneous, REF-wrapped, one argument of another kind, a plain value, a fixed "
+        "argument of another kind, too few arguments) under 3-6 registration orders; plus 40 (thorough: 800) promotion "
+        "families: plain VALUES in a flat tail against candidates taking them as true scalar parameters (scalar variables, "
+        "concrete scalars, numeric coercion)")
 TRUSTED = [
+    "variadic candidates: drv_dispatch.cpp builds the OperatorImpl by hand (variadic = true, positional_params = number of "
+    "fixed parameters, rank = operator_rank(params, /*skip tail*/ true)) - the three assignments make_operator_graph_impl "
+    "makes (operator_dispatch.h l.1602-1623); that function itself (a template over a graph type) is not executed",
+    "tools/props/c19.py promote(): a plain value in a variadic tail is read as the code reads it "
+    "(scalar_value_matches_ts_pattern: SIGNAL only takes a bool, a variable bound to SIGNAL takes a bool, a concrete REF "
+    "leaf takes nothing); the documented variadic rank (operators.rst l.753-754, l.782-791: rank of the fixed parameters + "
+    "one rank of the tail pattern per supplied tail argument + one point) and the promotion point "
+    "(python_integration.rst l.427-429) are transcribed by hand; a variable shared by the fixed part and the tail is "
+    "bracketed between 'charged once' and 'charged per part'",
     "std::unordered_map / std::stable_sort / TypeRegistry interning modelled as association lists, a stable insertion "
     "sort and equality of schema terms (a bundle term carries its optional name: pointer identity of interned schemas = "
     "equality of terms incl. the name; time_series_schema_equivalent = the name-blind comparison `equiv`)",
@@ -119,9 +142,11 @@ TRUSTED = [
 ]
 ASSUMPTIONS = [
     "outside the model (not generated, not covered by the theorems): requires_ predicates and default resolvers, "
-    "parameter defaults, variadic tails, keyword arguments and **kwargs packing (a declared collector only contributes "
-    "its rank penalty; no call supplies a keyword), scalar->const promotion of a plain value into a time-series "
-    "parameter (both drivers answer 'unsupported'), the registry's bundle NAME SPACE (one name, one field list: "
+    "parameter defaults, PACKED variadic tails (from_variadic_tail, variadic_pack_fixed_input_penalty), keyword-only "
+    "parameters behind a tail, a variadic candidate without any parameter or with a scalar tail parameter (both drivers "
+    "answer 'bad-op'), keyword arguments and **kwargs packing (a declared collector only contributes "
+    "its rank penalty; no call supplies a keyword), scalar->const promotion of a plain value into a FIXED time-series "
+    "parameter (both drivers answer 'unsupported'; a plain value in a variadic TAIL is modelled), the registry's bundle NAME SPACE (one name, one field list: "
     "TypeRegistry::tsb throws on a conflicting re-declaration - the generator derives every bundle name from its field "
     "list, named bundles never occur in OUTPUT patterns, and no named bundle has a REF field, so neither the conflict nor "
     "the '<name>_deref' renaming of TypeRegistry::dereference is reachable) and bundle inheritance (input_adaptation_rank is 0), "
@@ -148,6 +173,13 @@ LEVEL_TEXT = ("Kernel-checked theorems over ALL overload lists, argument tuples 
               "f(~T,~T) on (TSB<A>[x,y], TSB<B>[x,y])); for the code's TSB[~S] schema variable only 'same field list' holds "
               "(schema_var_rebinding_is_structural, reported as [C19-schemavar] once listed). The unrestricted "
               "rank-respects-instantiation statement is REFUTED for the code's rank (kept visible)."
+              " VARIADIC candidates (Model/DispatchVar.lean wraps the model, Props/C19Var.lean): permutation invariance and "
+              "unique strict minimum for families mixing fixed-arity and variadic candidates, soundness of the fixed part "
+              "(one map) and of EACH tail argument separately (an instance of the tail pattern under some extension of the "
+              "fixed bindings), tail bindings do not leak (the survivor's map and output are those of the fixed arguments "
+              "alone), the rank formula (base rank without the tail + tailRank * #tail + 1 + adjustments), exact fixed arity "
+              "strictly beats the variadic candidate of the same specificity on every call both accept, and a kernel-checked "
+              "counter-witness that ranking the tail with ts_pattern_rank makes *TSL[~E,~N] lose against a bare ~S."
               ' Every implementation answer is additionally checked against the documented specificity order (docrank oracle) and bundle families (named / un-named TSB patterns with extra, missing and reordered fields) and output patterns whose size variable no parameter binds (the candidate must be rejected) are part of the generator.')
 LEVEL_NOTE = ("Trusted: Lean kernel; axioms propext/Classical.choice/Quot.sound; the hand-written model of "
               "type_pattern.cpp / operator_dispatch.{h,cpp}; the correspondence harness (hgv_dispatch registers the "
